@@ -32,6 +32,10 @@ RULES = {
               "de_casteljau blends entry i+1 with weight t and entry i with weight 1-t into entry i",
     "C19-B2": "the barycentric coefficients are non-negative at every corner of the unit box of the random draws "
               "(the sample lies in the edge / face)",
+    "C19-F1": "the vertices combined for sample i are those of the element drawn for sample i (loop value of the choice array, "
+              "container edges / faces of the sampled mesh); returned normals are face_normals indexed by the same drawn faces",
+    "C19-W1": "elements are drawn by choice(len(container), size=n_pts, p=w) where w is edge_length / face_area of the sampled mesh "
+              "divided by its own sum (share of samples follows length / area)",
     "C19-G1": "control points are read only as arguments of de_casteljau (or for their count); evaluation methods return "
               "de_casteljau results and forward their own parameters; the range guard of de_casteljau is `t<0 or t>1`, raises, "
               "precedes every use of t; the blend works on a fresh copy of the control list whose entries are only rebound",
@@ -54,17 +58,39 @@ SAMPLERS = {
 BOX_GEO = {"box.mini": (1, 1), "box.maxi": (1, 1), "box.center": (1, 1), "box.span": (1, 0)}
 
 
+def _res(b, expr, at=None, keep=()):
+    return G.fast_resolve(b, expr, at, keep)
+
+
+_LOST = set()
+
+
+def _floor(ctx, rule, label, n, at_least):
+    """fail closed on a vacuous pass - unless the rule already reported a lost construct as a finding"""
+    if rule in _LOST:
+        return
+    ctx.require_count(label, n, at_least)
+
+
+def _lost(ctx, rule, site, construct, what):
+    _LOST.add(rule)
+    ctx.fail(rule, site, construct, what)
+
+
 def run(ctx):
+    _LOST.clear()
     d1_n1_samplers(ctx)
     aabb_accessors(ctx)
     b1_barycentric(ctx)
+    f1_drawn_element(ctx)
+    w1_probabilities(ctx)
     g1_de_casteljau(ctx)
     s1_as_surface(ctx)
     ctx.repo.func(BEZ, "BezierCurve.as_polyline")
     ctx.declare_unsupported("BezierCurve.as_polyline: vertices are appended under a test on the point size and custom_pos decouples "
                             "the vertex count from n_pts (no index rule applied; evaluation path covered by C19-G1)")
     ctx.declare_unsupported("sample_AABB(mode='grid'): number of rows res**dim (nearest perfect power) is not decided")
-    ctx.declare_unsupported("choice(...) probabilities by length / area: distribution not decided")
+    ctx.declare_unsupported("statistical behaviour of the draws (numpy choice / random) is trusted, only the wiring of the weights is decided")
 
 
 # ----------------------------------------------------------------------- C19-D1 / C19-N1
@@ -77,7 +103,7 @@ def n1_obligations(ctx, key, fn, it, label=""):
             if tgt.shape is None or not tgt.shape or tgt.shape[0] is None:
                 continue
             n += 1
-            ctx.check(tgt.shape[0] == npts, "C19-N1", ctx.site(key[0], fn, node),
+            ctx.check(D.same_dim(tgt.shape[0], npts), "C19-N1", ctx.site(key[0], fn, node),
                       f"{key[1]}{label} returns `{tgt.shape[0]}` rows instead of n_pts",
                       f"`{au.src(node)[:100]}`: leading dimension derived from the allocation is {tgt.shape[0]}",
                       note=f"{key[1]}{label}: returned rows = n_pts")
@@ -85,7 +111,7 @@ def n1_obligations(ctx, key, fn, it, label=""):
         if rows is None or trip is None:
             continue
         n += 1
-        ctx.check(rows == trip and rows == npts, "C19-N1", ctx.site(key[0], fn, node),
+        ctx.check(D.same_dim(rows, trip) and D.same_dim(rows, npts), "C19-N1", ctx.site(key[0], fn, node),
                   f"{key[1]}: the loop filling `{name}` visits `{trip}` rows of `{rows}`",
                   "rows that the loop does not reach keep their initial value (zeros): fewer than n_pts samples",
                   note=f"{key[1]}: fill loop covers {rows} rows")
@@ -99,7 +125,11 @@ def d1_n1_samplers(ctx):
         fn = ctx.repo.func(*key)
         it = D.Interp(fn, D.Config(spec["geo"], ctx.repo, SAMP)).run()
         nd += dim_obligations(ctx, "C19-D1", key, fn, it, spec["geo"], require=spec["require"])
-        nn += n1_obligations(ctx, key, fn, it)
+        k = n1_obligations(ctx, key, fn, it)
+        if k == 0:
+            _lost(ctx, "C19-N1", ctx.site(SAMP, fn), f"row count of the array returned by {name} is not derivable",
+                  "no returned value has a leading dimension the shape domain can follow")
+        nn += k
     # sample_AABB: one run per mode
     key = (SAMP, "sample_AABB")
     fn = ctx.repo.func(*key)
@@ -109,7 +139,7 @@ def d1_n1_samplers(ctx):
         if au.call_tail(c) == "check_argument" and len(c.args) >= 4 and au.src(c.args[1]) == "mode":
             modes = au.literal(c.args[3])
     if not modes or "mode" not in au.params(fn):
-        ctx.fail("C19-D1", site, "list of sampling modes of sample_AABB not found",
+        _lost(ctx, "C19-D1", site, "list of sampling modes of sample_AABB not found",
                  "check_argument('mode', mode, str, [...]) gives the modes to analyse")
         modes = []
     for mode in modes:
@@ -140,10 +170,10 @@ def d1_n1_samplers(ctx):
         if mode != "grid":
             k = n1_obligations(ctx, key, fn, it, f"(mode='{mode}')")
             if k == 0:
-                ctx.fail("C19-N1", site, f"row count of sample_AABB(mode='{mode}') is not derivable", "")
+                _lost(ctx, "C19-N1", site, f"row count of sample_AABB(mode='{mode}') is not derivable", "")
             nn += k
-    ctx.require_count("C19-D1 obligations", nd, 18)
-    ctx.require_count("C19-N1 obligations", nn, 12)
+    _floor(ctx, "C19-D1", "C19-D1 obligations", nd, 18)
+    _floor(ctx, "C19-N1", "C19-N1 obligations", nn, 12)
 
 
 def aabb_accessors(ctx):
@@ -194,7 +224,7 @@ def bary_check(ctx, modname, fn, st, expr, point_pred, unit_names, label, extra_
     P = sym.to_poly(expr, atom_of)
     pts = sorted(a for a in P.atoms() if point_pred(a))
     if len(pts) < 2:
-        ctx.fail("C19-B1", site, f"{label}: barycentric combination of the points not found",
+        _lost(ctx, "C19-B1", site, f"{label}: barycentric combination of the points not found",
                  f"`{au.src(expr)}` does not combine at least two points")
         return None
     weights = {}
@@ -260,15 +290,15 @@ def b1_barycentric(ctx):
                     point_names |= set(au.assigned_names(t))
         stores = [st for st in au.stmts(fn.body) if isinstance(st, ast.Assign) and len(st.targets) == 1
                   and isinstance(st.targets[0], ast.Subscript) and isinstance(st.targets[0].value, ast.Name)
-                  and (au.names(b.resolve(st.value, at=st, keep=tuple(point_names))) & point_names)]
+                  and (au.names(_res(b, st.value, at=st, keep=tuple(point_names))) & point_names)]
         if not stores or not point_names:
-            ctx.fail("C19-B1", site, f"{name}: barycentric combination of the points not found",
+            _lost(ctx, "C19-B1", site, f"{name}: barycentric combination of the points not found",
                      "no row store combining the vertex coordinates of the chosen element")
             continue
         unit = _unit_atoms(fn, b, None)
         for st in stores:
             n += 1
-            expr = b.resolve(st.value, at=st, keep=tuple(point_names | unit))
+            expr = _res(b, st.value, at=st, keep=tuple(point_names | unit))
             bary_check(ctx, SAMP, fn, st, expr, lambda a: a in point_names, unit, name)
     # de_casteljau
     fn = ctx.repo.func(BEZ, "de_casteljau")
@@ -279,12 +309,15 @@ def b1_barycentric(ctx):
               and isinstance(st.targets[0], ast.Subscript) and isinstance(st.targets[0].value, ast.Name)
               and any(isinstance(a, ast.For) for a in au.ancestors(st))]
     if len(ps) != 2 or not blends:
-        ctx.fail("C19-B1", site, "de_casteljau: blend `X[i] = t*X[i+1] + (1-t)*X[i]` not found", "")
+        n += 1
+        _lost(ctx, "C19-B1", site, "de_casteljau: blend `X[i] = t*X[i+1] + (1-t)*X[i]` not found",
+                 "no rebinding store of a blended entry inside the de Casteljau loops")
+        blends = []
     for st in blends:
         n += 1
         arr = st.targets[0].value.id
         tname = ps[1]
-        expr = b.resolve(st.value, at=st, keep=(arr, tname))
+        expr = _res(b, st.value, at=st, keep=(arr, tname))
         pref = arr + "["
         w = bary_check(ctx, BEZ, fn, st, expr, lambda a: a.startswith(pref), set(), "de_casteljau", extra_unit=(tname,))
         if w is None:
@@ -307,7 +340,7 @@ def b1_barycentric(ctx):
                   "de_casteljau: the blend is not `entry[i] = t*entry[i+1] + (1-t)*entry[i]`",
                   f"weights {dict((k, str(v)) for k, v in w.items())} written to {tgt}: B(0) must be the first control point and B(1) the last",
                   note="de_casteljau: weight t on entry i+1, 1-t on entry i")
-    ctx.require_count("C19-B1 combinations", n, 3)
+    _floor(ctx, "C19-B1", "C19-B1 combinations", n, 3)
 
 
 # ----------------------------------------------------------------------- C19-G1
@@ -331,7 +364,7 @@ def g1_de_casteljau(ctx):
             guard_i = i
             break
     if guard_i is None:
-        ctx.fail("C19-G1", site, "range guard on t not found in de_casteljau",
+        _lost(ctx, "C19-G1", site, "range guard on t not found in de_casteljau",
                  "parameters outside [0,1] must be rejected (InvalidRangeArgumentError), not extrapolated")
     else:
         g = fn.body[guard_i]
@@ -353,14 +386,14 @@ def g1_de_casteljau(ctx):
     stores = [st for st in au.stmts(fn.body) if isinstance(st, (ast.Assign, ast.AugAssign))
               for tg in au.assign_targets(st) if isinstance(tg, ast.Subscript)]
     if not stores:
-        ctx.fail("C19-G1", site, "de_casteljau: blend store not found", "")
+        _lost(ctx, "C19-G1", site, "de_casteljau: blend store not found", "")
     for st in stores:
         tg = [x for x in au.assign_targets(st) if isinstance(x, ast.Subscript)][0]
         root = tg.value
         while isinstance(root, (ast.Subscript, ast.Attribute)):
             root = root.value
         name = root.id if isinstance(root, ast.Name) else None
-        d = b.resolve(ast.Name(name, ast.Load()), at=st) if name else None
+        d = _res(b, ast.Name(name, ast.Load()), at=st) if name else None
         fresh = False
         if name and name not in ps and d is not None and not isinstance(d, ast.Name):
             if isinstance(d, (ast.ListComp, ast.List)):
@@ -414,7 +447,7 @@ def g1_de_casteljau(ctx):
                           f"{cname}.{m.name} reads the control points outside a de_casteljau call",
                           f"`{au.src(au.enclosing_stmt(n))[:100]}`: an evaluation that bypasses de_casteljau also bypasses its range guard",
                           note=f"{cname}.{m.name}: control points go to de_casteljau / len")
-    ctx.require_count("C19-G1 control point reads", n_reads, 5)
+    _floor(ctx, "C19-G1", "C19-G1 control point reads", n_reads, 5)
     # ---- evaluation methods return de_casteljau results and forward their parameters
     n_eval = 0
     for cname, mname in (("BezierCurve", "evaluate"), ("BezierPatch", "_evaluate_row"), ("BezierPatch", "evaluate")):
@@ -426,7 +459,7 @@ def g1_de_casteljau(ctx):
         good = bool(rets)
         used = set()
         for r in rets:
-            e = bm.resolve(r.value, at=r) if r.value is not None else None
+            e = _res(bm, r.value, at=r) if r.value is not None else None
             if isinstance(e, (ast.ListComp, ast.GeneratorExp)):
                 e = e.elt
             if not _is_dc(e) or len(e.args) != 2:
@@ -454,12 +487,12 @@ def g1_de_casteljau(ctx):
             ctx.fail("C19-G1", ctx.site(BEZ, m), f"{cname}.{mname}: vertex append not found", "")
         for c in apps:
             n_eval += 1
-            e = bm.resolve(c.args[0], at=c)
+            e = _res(bm, c.args[0], at=c)
             ok = any(_is_dc(x) or (isinstance(x, ast.Call) and isinstance(x.func, ast.Attribute) and au.is_self_attr(x.func)
                                    and x.func.attr in ("evaluate", "_evaluate_row")) for x in au.walk(e))
             ctx.check(ok, "C19-G1", ctx.site(BEZ, m, c), f"{cname}.{mname} appends a vertex that is not an evaluation of the curve / patch",
                       f"`{au.src(c)}` resolves to `{au.src(e)[:100]}`", note=f"{cname}.{mname}: vertices are evaluations")
-    ctx.require_count("C19-G1 evaluation sites", n_eval, 6)
+    _floor(ctx, "C19-G1", "C19-G1 evaluation sites", n_eval, 6)
 
 
 def _is_ndarray_view(d):
@@ -498,11 +531,15 @@ def s1_as_surface(ctx):
             ctx.fail("C19-S1", s, construct, f"vertex (r, c) of the patch has index r*({nest[2].trip}) + c; witness {w}",
                      index=au.src(g.index_expr(em, k, run)))
         vsite, outer, inner = nest
-        base = G.nest_base(g, run, vsite)
         for em in run.emits:
             if em.kind not in ("faces", "edges", "vertices-attr"):
                 continue
-            polys = g.index_polys(em, run)
+            try:
+                polys = g.index_polys(em, run)
+            except G.Unsupported as e:
+                n += 1
+                ctx.fail("C19-S1", ctx.site(BEZ, fn, em.stmt), f"{em.kind} index of as_surface not found in a recognisable form", str(e))
+                continue
             for k, P in enumerate(polys):
                 if (em.key, k) in failed:
                     continue
@@ -522,20 +559,8 @@ def s1_as_surface(ctx):
                 if em.kind == "vertices-attr":
                     # key of the attribute written next to the append = index of that vertex
                     n += 1
-                    same = len(em.loops) == 2 and em.loops[0].node is outer.node and em.loops[1].node is inner.node
-                    want = base + (Poly.atom(outer.var) - outer.lo) * inner.trip + (Poly.atom(inner.var) - inner.lo)
-                    ok = same and P == want
-                    wtxt = ""
-                    if not ok and same:
-                        for penv in g.param_envs(sorted((P - want).atoms() - {outer.var, inner.var}), g.mins_for(em, run)):
-                            for env in g.iterate(em, run, penv):
-                                if P.eval(env) != want.eval(env):
-                                    wtxt = (f"witness {G.fmt_env(penv)}: at iteration ({outer.var}={env[outer.var]}, {inner.var}={env[inner.var]}) "
-                                            f"vertex {want.eval(env)} is appended but key {P.eval(env)} is written")
-                                    break
-                            if wtxt:
-                                break
-                    ctx.check(ok or (same and not wtxt), "C19-S1", s,
+                    appl, ok, want, wtxt = G.attr_key_check(g, run, nest, em, P)
+                    ctx.check(appl and ok, "C19-S1", s,
                               f"uv attribute key `{P}` is not the index `{want}` of the vertex appended in the same iteration",
                               wtxt or "the attribute is not written in the vertex loop nest",
                               note="uv key = running vertex index")
@@ -554,22 +579,136 @@ def s1_as_surface(ctx):
                   f"as_surface creates `{F}` faces of arity {sorted(arity)}, not (n1-1)*(n2-1) quads",
                   "one quad per cell of the sample grid", note=f"|F4| = {F}")
     except G.Unsupported as e:
-        ctx.fail("C19-S1", site, "index arithmetic of BezierPatch.as_surface not found in a recognisable form", str(e))
+        _lost(ctx, "C19-S1", site, "index arithmetic of BezierPatch.as_surface not found in a recognisable form", str(e))
+        return
     # parameter samples indexed over their whole linspace
     b = sym.Bindings(fn)
     for sub in [x for x in au.walk(fn) if isinstance(x, ast.Subscript) and isinstance(x.ctx, ast.Load) and isinstance(x.value, ast.Name)
                 and isinstance(x.slice, ast.Name)]:
-        d = b.resolve(sub.value, at=sub)
+        d = _res(b, sub.value, at=sub)
         if not (isinstance(d, ast.Call) and au.call_tail(d) == "linspace" and len(d.args) >= 3):
             continue
         loops = [a for a in au.ancestors(sub) if isinstance(a, ast.For) and isinstance(a.target, ast.Name) and a.target.id == sub.slice.id]
         if not loops or not (isinstance(loops[0].iter, ast.Call) and au.call_tail(loops[0].iter) == "range" and len(loops[0].iter.args) == 1):
             continue
         n += 1
-        trip = sym.to_poly(b.resolve(loops[0].iter.args[0], at=loops[0]))
-        cnt = sym.to_poly(b.resolve(d.args[2], at=sub))
+        trip = sym.to_poly(_res(b, loops[0].iter.args[0], at=loops[0]))
+        cnt = sym.to_poly(_res(b, d.args[2], at=sub))
         ctx.check(trip == cnt, "C19-S1", ctx.site(BEZ, fn, sub),
                   f"`{au.src(sub)}` indexes a linspace of `{cnt}` samples with a loop of `{trip}` iterations",
                   f"for {trip} > {cnt} the index runs past the samples, for {trip} < {cnt} the patch is not covered up to parameter 1",
                   note=f"{au.src(sub)}: loop covers the linspace")
-    ctx.require_count("C19-S1 obligations", n, 12)
+    _floor(ctx, "C19-S1", "C19-S1 obligations", n, 12)
+
+
+# ----------------------------------------------------------------------- C19-F1
+def f1_drawn_element(ctx):
+    n = 0
+    for name, container in (("sample_polyline", "edges"), ("sample_surface", "faces")):
+        fn = ctx.repo.func(SAMP, name)
+        site = ctx.site(SAMP, fn)
+        b = sym.Bindings(fn)
+        mesh_p = au.params(fn)[0]
+        loop = None
+        for st in au.stmts(fn.body):
+            if isinstance(st, ast.For) and isinstance(st.iter, ast.Call) and au.call_tail(st.iter) == "enumerate" and st.iter.args \
+                    and isinstance(st.target, ast.Tuple) and len(st.target.elts) == 2 \
+                    and all(isinstance(x, ast.Name) for x in st.target.elts) \
+                    and any(isinstance(s_, ast.Assign) and isinstance(s_.targets[0], ast.Subscript) for s_ in st.body):
+                loop = st
+        if loop is None:
+            _lost(ctx, "C19-F1", site, f"{name}: fill loop `for i, elem in enumerate(drawn elements)` not found", "")
+            continue
+        idx_var, val_var = loop.target.elts[0].id, loop.target.elts[1].id
+        drawn = loop.iter.args[0]
+        # the drawn array comes from choice(...) (or the single-element fallback)
+        d = _res(b, drawn, at=loop)
+        # element rows read in the loop body
+        reads = [x for s_ in loop.body for x in au.walk(s_) if isinstance(x, ast.Subscript) and isinstance(x.value, ast.Attribute)
+                 and x.value.attr in ("edges", "faces", "cells") and isinstance(x.ctx, ast.Load)]
+        n += 1
+        ok = bool(reads) and all(au.src(x.value) == f"{mesh_p}.{container}" and isinstance(x.slice, ast.Name) and x.slice.id == val_var
+                                 for x in reads)
+        ctx.check(ok, "C19-F1", ctx.site(SAMP, fn, reads[0] if reads else loop),
+                  f"{name}: the combined vertices are not those of the drawn element (row of `{container}` selected by the loop value)",
+                  f"vertices are read from `{', '.join(sorted({au.src(x) for x in reads})) or 'nothing'}` instead of "
+                  f"`{mesh_p}.{container}[{val_var}]`: sample {idx_var} must lie on the element drawn for it; indexing by the sample "
+                  f"counter ignores the length / area weighting",
+                  note=f"{name}: vertices of the drawn element {mesh_p}.{container}[{val_var}]")
+        if name == "sample_surface":
+            # normals: face_normals(mesh)[f] for f in the same drawn array
+            comps = [x for x in au.walk(fn) if isinstance(x, (ast.ListComp, ast.GeneratorExp)) and isinstance(x.elt, ast.Subscript)
+                     and isinstance(x.elt.value, ast.Name)
+                     and isinstance(_res(b, x.elt.value, at=x), ast.Call) and au.call_tail(_res(b, x.elt.value, at=x)) == "face_normals"]
+            n += 1
+            if len(comps) != 1:
+                _lost(ctx, "C19-F1", site, "sample_surface: normals of the drawn faces (`face_normals(mesh)[f] for f in drawn`) not found",
+                         f"{len(comps)} comprehension(s) over face_normals")
+            else:
+                c = comps[0]
+                g0 = c.generators[0]
+                fnc = _res(b, c.elt.value, at=c)
+                ok = len(c.generators) == 1 and not g0.ifs and isinstance(g0.target, ast.Name) and au.same(g0.iter, drawn) \
+                    and isinstance(c.elt.slice, ast.Name) and c.elt.slice.id == g0.target.id \
+                    and fnc.args and isinstance(fnc.args[0], ast.Name) and fnc.args[0].id == mesh_p
+                ctx.check(ok, "C19-F1", ctx.site(SAMP, fn, c),
+                          "sample_surface: returned normals are not face_normals(mesh) indexed by the drawn faces in order",
+                          f"`{au.src(c)}` vs drawn faces `{au.src(drawn)}`: the i-th normal must be the normal of the face the i-th "
+                          f"point was drawn on",
+                          note="normals indexed by the drawn faces, in order")
+    _floor(ctx, "C19-F1", "C19-F1 obligations", n, 3)
+
+
+# ----------------------------------------------------------------------- C19-W1
+def w1_probabilities(ctx):
+    n = 0
+    for name, container, measure in (("sample_polyline", "edges", "edge_length"), ("sample_surface", "faces", "face_area")):
+        fn = ctx.repo.func(SAMP, name)
+        site = ctx.site(SAMP, fn)
+        b = sym.Bindings(fn)
+        mesh_p = au.params(fn)[0]
+        draws = [c for c in au.calls(fn) if au.call_tail(c) == "choice"]
+        n += 1
+        if len(draws) != 1:
+            _lost(ctx, "C19-W1", site, f"{name}: the weighted draw `choice(n_elements, size=n_pts, p=weights)` not found",
+                     f"{len(draws)} call(s) of choice")
+            continue
+        c = draws[0]
+        s = ctx.site(SAMP, fn, c)
+        pop = _res(b, c.args[0], at=c) if c.args else None
+        okpop = pop is not None and au.src(pop) == f"len({mesh_p}.{container})"
+        ctx.check(okpop, "C19-W1", s, f"{name}: elements are not drawn among range(len({mesh_p}.{container}))",
+                  f"population `{au.src(pop) if pop is not None else None}`", note=f"{name}: population len({mesh_p}.{container})")
+        pk = next((k.value for k in c.keywords if k.arg == "p"), c.args[3] if len(c.args) > 3 else None)
+        n += 2
+        if not isinstance(pk, ast.Name):
+            ctx.fail("C19-W1", s, f"{name}: the draw has no weight array `p=` (uniform over {container})",
+                     f"`{au.src(c)}`: the share of samples per element must follow its {measure.split('_')[1]}, not be uniform")
+            continue
+        w = pk.id
+        # provenance: w = measure(mesh, ...)[.as_array()]  then  w /= np.sum(w)   before the draw
+        src_ok = norm_ok = False
+        for st in au.stmts(fn.body):
+            if isinstance(st, ast.Assign) and any(isinstance(t, ast.Name) and t.id == w for t in st.targets):
+                calls = [x for x in au.walk(st.value) if isinstance(x, ast.Call) and au.call_tail(x) == measure]
+                if calls and calls[0].args and isinstance(calls[0].args[0], ast.Name) and calls[0].args[0].id == mesh_p:
+                    src_ok = True
+                # w = w / np.sum(w)
+                v = st.value
+                if isinstance(v, ast.BinOp) and isinstance(v.op, ast.Div) and isinstance(v.left, ast.Name) and v.left.id == w \
+                        and _is_sum_of(v.right, w):
+                    norm_ok = True
+            if isinstance(st, ast.AugAssign) and isinstance(st.target, ast.Name) and st.target.id == w and isinstance(st.op, ast.Div) \
+                    and _is_sum_of(st.value, w):
+                norm_ok = True
+        ctx.check(src_ok, "C19-W1", s, f"{name}: the draw weights are not {measure}({mesh_p})",
+                  f"`p={w}` must hold the {measure.split('_')[1]} of every element of {mesh_p}.{container}", note=f"{name}: weights = {measure}")
+        ctx.check(norm_ok, "C19-W1", s, f"{name}: the draw weights are not divided by their own sum",
+                  f"`{w}` must be normalised by np.sum({w}) to be the probability of each element", note=f"{name}: weights normalised by their sum")
+    _floor(ctx, "C19-W1", "C19-W1 obligations", n, 6)
+
+
+def _is_sum_of(e, w):
+    return isinstance(e, ast.Call) and au.call_tail(e) == "sum" and (
+        (e.args and isinstance(e.args[0], ast.Name) and e.args[0].id == w) or
+        (isinstance(e.func, ast.Attribute) and isinstance(e.func.value, ast.Name) and e.func.value.id == w))
